@@ -47,6 +47,8 @@ def run(idx: Index, rep: Report, tier: str):
     check_subclass_attr_guards(idx, rep)
     check_multiform_tables(idx, rep)
     check_index_ranges(idx, rep)
+    check_resync_after_compress(idx, rep)
+    check_plain_operand_guard(idx, rep)
     check_numpy_api(idx, rep, [OPS, MULTI], rule="K11.numpy-api")
     rep.stats.update({"alias_" + k: v for k, v in an.stats.items()})
 
@@ -312,3 +314,57 @@ def check_index_ranges(idx: Index, rep: Report):
                        reason=f"element type is `{dt}`: not a fixed wide integer type, so the counter can wrap or lose precision for large n "
                               f"(Pauli-word arrays are int8: a counter in the data's type wraps beyond 127 rows) and the rows gathered through it are wrong")
     rep.floor("0..n-1 counter arrays in multiformoperator.py", count, 2)
+
+
+# ---------------------------------------------------------------------------------------------------
+def check_resync_after_compress(idx: Index, rep: Report):
+    """MultiformOperator keeps four array forms next to the symbolic terms; the inherited in-place arithmetic only changes the terms, and
+    `compress` is the documented point where the arrays are rebuilt from them.  Every path through `compress` must therefore pass through
+    `self._update(...)` (a must-pass-through obligation on the method's flow graph): a conditional rebuild leaves stale arrays behind, and the
+    array-based product then disagrees with the symbolic one."""
+    rule = "K6.resync"
+    from ..cfg import CFG
+    m = idx.function(f"{MULTI}::MultiformOperator.compress")
+    g = CFG(m.node)
+    calls = [n for n in ast.walk(m.node) if isinstance(n, ast.Expr) and isinstance(n.value, ast.Call) and norm(n.value.func) == "self._update"]
+    if not calls:
+        rep.violation(rule, m, m.node, text="compress rebuilds the array forms", what="after compress() the array forms are those of the current terms", reason="no call of self._update in compress")
+        return
+    ok = g.must_pass_through(g.entry.id, g.return_exit.id, [g.node_for(c) for c in calls])
+    rep.decide(ok, rule, m, calls[0], text="every path through compress() passes through self._update(...)",
+               what="after compress() the array forms (factors, integer, binary, binary_swap) are those of the current terms, whatever the compression removed",
+               reason="some path through compress() skips self._update: in-place arithmetic followed by compress() leaves factors / integer / binary stale, "
+                      "and the array-based product no longer matches the symbolic operator")
+
+
+def check_plain_operand_guard(idx: Index, rep: Report):
+    """Where QubitHamiltonian admits a plain operator (one without mapping information) it must admit every plain operator the inherited
+    arithmetic admits - openfermion's QubitOperator and with it the repository's subclass.  A test against the repository's subclass only is
+    narrower than the operand type and turns a documented operand into a TypeError."""
+    rule = "K6.attr-guard"
+    ci = idx.cls(f"{OPS}::QubitHamiltonian")
+    n = 0
+    for mname in ("__iadd__", "__eq__", "__add__", "__isub__", "__sub__"):
+        m = ci.methods.get(mname)
+        if m is None:
+            continue
+        other = [p for p in m.params if p != "self"]
+        if not other:
+            continue
+        for c in ast.walk(m.node):
+            if isinstance(c, ast.Call) and norm(c.func) == "isinstance" and len(c.args) == 2 and norm(c.args[0]) == other[0]:
+                for t in (c.args[1].elts if isinstance(c.args[1], ast.Tuple) else [c.args[1]]):
+                    r = idx.resolve_expr(m.module, t)
+                    if isinstance(r, ClassInfo) and not r.module.external and r.name != "QubitHamiltonian":
+                        ext = [b for b in idx.mro(r) if b.module.external and b.name == r.name]
+                        n += 1
+                        rep.decide(not ext, rule, m, c, text=f"QubitHamiltonian.{mname}: operand test {norm(c)}",
+                                   what="a plain operand is recognised by the most general operator class the inherited arithmetic accepts",
+                                   reason=f"`{norm(c)}` tests for the repository's {r.name}, a subclass of openfermion's {r.name}: an openfermion operator - which the "
+                                          f"inherited arithmetic accepts from plain operators - is no longer recognised and ends in a TypeError")
+                    elif isinstance(r, ClassInfo):
+                        n += 1
+                        rep.ok(rule, m, c, text=f"QubitHamiltonian.{mname}: operand test {norm(c)}", what="a plain operand is recognised by the most general operator class the inherited arithmetic accepts")
+    if n == 0:
+        rep.info(rule, ci.methods.get("__iadd__") or (OPS, "QubitHamiltonian"), None, text="QubitHamiltonian: no operand type test on the other operand",
+                 reason="nothing to decide for this rule (the attribute-guard obligations above cover operands that lack the subclass attributes)")
